@@ -208,7 +208,7 @@ pub fn cases(prop: &str, tier: Tier, seed: u64) -> Vec<CaseDesc> {
                 for (i, s) in specs.into_iter().enumerate() {
                     // every fifth case: ids come from an on_instr_loc callback (bit 128) instead of being the offsets
                     let cfgm = if i % 5 == 4 { 90 | 128 } else { 90 };
-                    let scn = match i % 3 { 0 => format!("rt:emit,gc,probe;cfg={}", cfgm), 1 => format!("rt:emit,probe,ins;cfg={}", cfgm), _ => format!("rt:emit,probe,addfn;cfg={}", cfgm) };
+                    let scn = match i % 4 { 0 => format!("rt:emit,gc,probe;cfg={}", cfgm), 1 => format!("rt:emit,probe,ins;cfg={}", cfgm), 2 => format!("rt:emit,probe,addfn;cfg={}", cfgm), _ => format!("rt:emit,probe,emptied;cfg={}", cfgm) };
                     out.push(CaseDesc { spec: s, scenario: scn });
                 }
             }
@@ -241,8 +241,8 @@ pub fn cases(prop: &str, tier: Tier, seed: u64) -> Vec<CaseDesc> {
             out.extend(with_scenario(crate::census::hist_random(seed, if q { 300 } else { 10_000 }, 200), "hist"));
         }
         "C13" => {
-            out.extend(with_scenario(disk_corpus(false), "rt:emit,gc"));
-            out.extend(with_scenario(g("names", 4000, 150_000), "rt:emit,gc"));
+            out.extend(with_scenario(disk_corpus(false), "rt:emit,gc,onparse"));
+            out.extend(with_scenario(g("names", 4000, 150_000), "rt:emit,gc,onparse"));
             out.extend(with_scenario(g("customs", 500, 20_000), "rt:emit,gc"));
             // synthetic names switched on: the names the input gives must still win
             out.extend(with_scenario(crate::gen::gen_specs("names", seed ^ 0x5e7, if q { 1500 } else { 60_000 }), "rt:emit,gc;cfg=30"));
